@@ -650,6 +650,22 @@ func (c *Ctx) trCall(x *ast.CallExpr) Val {
 			cs = append(cs, eq(nm, app("store", om, v.C[0], app("select", nm, v.C[0]))))
 		}
 		return bval(and(cs...))
+	case "strelemsbelow":
+		// strelemsbelow(b): the elements of every []string backing array whose reference is below b are as at entry
+		if c.Old == nil {
+			c.fail(x, "strelemsbelow() needs an old state")
+		}
+		b := c.intT(args[0])
+		var cs []string
+		for j, so := range flatten(tString) {
+			k := elemKey(tString, j)
+			s2 := "(Array Int (Array Int " + so + "))"
+			nm := c.E.heapKey(c.St, k, s2)
+			om := c.E.heapKey(c.Old.St, k, s2)
+			q := c.E.freshName("oe")
+			cs = append(cs, fmt.Sprintf("(forall ((%s Int)) (! (=> (< %s %s) (= (select %s %s) (select %s %s))) :pattern ((select %s %s))))", q, q, b, nm, q, om, q, nm, q))
+		}
+		return bval(and(cs...))
 	case "strOf":
 		// strOf(a, n): the string whose bytes are a[0..n) (a is a ghost array Int->Int)
 		a := c.tr(args[0])
